@@ -78,8 +78,9 @@ Definition xpnum (x : num) : result pval :=
   match x with
   | NLit s => Ok (PLit s)
   | NPre nm ne pe =>
-      (* export_prefixed: integral numbers go to int64_value, everything else to string_value *)
-      _ <- chk (pnum_fin x) ;; Ok (PDec nm (ne + pe))
+      (* export_prefixed: integral numbers inside 64 bits go to int64_value, everything else to string_value;
+         nothing is refused (repair ab942f1) *)
+      Ok (PDec nm (ne + pe))
   end.
 Definition xoval (v : oval) : result pval :=
   match v with
